@@ -624,24 +624,20 @@ theorem ft_all_good (lang : Lang) (root : Tree) (rootId : Nat) (ps : Option Nat)
   rw [flatOf_size] at hi
   exact good_cover _ (QQ lang) (qq_kids lang) _ 0 none 0 (flatOf_good _) (flatten_qq lang root rootId ps hs hsh) i (Nat.zero_le _) (by omega)
 
-/-- Identity, byte range, raw subtree and alias of a visible node / of a `TSNode`. -/
-def vkey (c : VTree) : Nat × Nat × Nat × Tree × Nat := (c.info.id, c.info.start.bytes, c.info.stop.bytes, c.info.raw, c.info.alias)
-def rkey (r : NodeRef) : Nat × Nat × Nat × Tree × Nat := (r.id, r.start.bytes, r.endByte, r.t, r.alias)
-
 mutual
-  /-- The nodes `flatten` lists for a raw subtree are the nodes `ts_node_child` hands out for it
-  (`enumRefs`): same slot ids, same byte ranges — the two position systems (start of the padding vs
-  start of the content) agree because a node's padding is its first child's (`Sized`). -/
+  /-- The nodes `flatten` lists for a raw subtree are EXACTLY the nodes `ts_node_child` hands out for
+  it (`enumRefs`: raw subtree, alias, slot id, start position in bytes, rows and columns) — the two
+  position systems (start of the padding vs start of the content) agree because a node's padding is
+  its first child's (`Sized`) and `length_add` is associative. -/
   theorem flattenAt_refs (lang : Lang) : ∀ (t : Tree) (cur : Length) (al id : Nat) (chain : List (List Nat)) (cstart : Length),
-      cstart.bytes = cur.bytes + t.data.padding.bytes → Sized t →
-      (flattenAt lang t cur al id chain).map vkey =
-        (if t.data.visible || al != 0 then [({ t := t, alias := al, id := id, start := cstart } : NodeRef)] else enumRefs lang t cstart).map rkey
+      cstart = length_add cur t.data.padding → Sized t →
+      (flattenAt lang t cur al id chain).map (fun c => refOf c.info) =
+        (if t.data.visible || al != 0 then [({ t := t, alias := al, id := id, start := cstart } : NodeRef)] else enumRefs lang t cstart)
     | .mk d kids, cur, al, id, chain, cstart, hpos, hs => by
       unfold flattenAt
       simp only [data_mk] at hpos ⊢
       by_cases hv : (d.visible || al != 0) = true
-      · simp only [hv, if_true, List.map_cons, List.map_nil, vkey, rkey, VTree.info, NodeRef.endByte, data_mk, length_add_bytes]
-        simp [hpos]
+      · simp only [hv, if_true, List.map_cons, List.map_nil, refOf, VTree.info, hpos]
       · simp only [hv, if_false, Bool.false_eq_true]
         unfold enumRefs
         unfold Sized at hs
@@ -653,18 +649,18 @@ mutual
         simp only [kidsPadding] at this
         rw [hpos, this]
   theorem flattenKids_refs (lang : Lang) : ∀ (kids : List Tree) (cur : Length) (pid si i addr n : Nat) (outer : List (List Nat))
-      (pos : Length), (if i > 0 then pos.bytes = cur.bytes else ∀ c r, kids = c :: r → pos.bytes = cur.bytes + c.data.padding.bytes) →
+      (pos : Length), (if i > 0 then pos = cur else ∀ c r, kids = c :: r → pos = length_add cur c.data.padding) →
       SizedL kids →
-      (flattenKids lang kids cur pid si i addr n outer).map vkey = (enumRefsKids lang pid addr n kids pos si i).map rkey
+      (flattenKids lang kids cur pid si i addr n outer).map (fun c => refOf c.info) = enumRefsKids lang pid addr n kids pos si i
     | [], _, _, _, _, _, _, _, _, _, _ => by simp [flattenKids, enumRefsKids]
     | c :: rest, cur, pid, si, i, addr, n, outer, pos, hpos, hs => by
       unfold flattenKids enumRefsKids
       unfold SizedL at hs
       simp only [List.map_append]
-      have hcs : (if i > 0 then length_add pos c.data.padding else pos).bytes = cur.bytes + c.data.padding.bytes := by
+      have hcs : (if i > 0 then length_add pos c.data.padding else pos) = length_add cur c.data.padding := by
         by_cases hi : i > 0
         · simp only [hi, if_true] at hpos ⊢
-          simp [length_add_bytes, hpos]
+          rw [hpos]
         · simp only [hi, if_false] at hpos ⊢
           exact hpos c rest rfl
       congr 1
@@ -673,68 +669,558 @@ mutual
         rw [this]
         simp only [NodeRef.relevant, isRelevant, if_true]
       · refine flattenKids_refs lang rest _ pid _ (i + 1) addr n outer _ ?_ hs.2
-        simp only [Nat.succ_pos, if_true, gt_iff_lt, length_add_bytes, hcs, Tree.totalSize]
-        omega
+        simp only [Nat.succ_pos, if_true, gt_iff_lt, hcs, Tree.totalSize, length_add_assoc]
 end
 
-theorem find_congr_keys {α β : Type} (ka : α → Nat × Nat × Nat × Tree × Nat) (kb : β → Nat × Nat × Nat × Tree × Nat) (goal : Nat) :
-    ∀ (A : List α) (B : List β), A.map ka = B.map kb →
-    (A.find? (fun a => decide ((ka a).2.2.1 > goal))).map ka = (B.find? (fun b => decide ((kb b).2.2.1 > goal))).map kb
-  | [], [], _ => rfl
-  | [], _ :: _, h => by simp at h
-  | _ :: _, [], h => by simp at h
-  | a :: A, b :: B, h => by
-    simp only [List.map_cons, List.cons.injEq] at h
-    simp only [List.find?_cons, h.1]
+/-- The children of a node of the flattened tree, as `TSNode`s, are `enumRefs` of the node. -/
+theorem qq_kids_refs (lang : Lang) (info : VInfo) (kids : List VTree) (h : QQ lang (.mk info kids)) :
+    kids.map (fun c => refOf c.info) = enumRefs lang info.raw info.start := by
+  obtain ⟨⟨pos, hst, _, hkids⟩, hsv, _, _⟩ := h
+  simp only [VTree.info, VTree.kids] at hst hkids hsv
+  have hsz := sized_of_summarized lang info.raw hsv
+  rw [hkids]
+  cases hraw : info.raw with
+  | mk d rk =>
+    rw [hraw] at hsz hst
+    unfold Sized at hsz
+    unfold enumRefs
+    simp only [kids_mk, data_mk] at hst ⊢
+    refine flattenKids_refs lang rk pos d.productionId 0 0 d.addr rk.length [] info.start ?_ hsz.2
+    simp only [Nat.lt_irrefl, if_false]
+    intro c r hk'
+    have := (hsz.1 (by rw [hk']; simp)).1
+    rw [hk'] at this
+    simp only [kidsPadding] at this
+    rw [hst, this]
+
+/-- … read through `FT`: the entries `kidsOf k` stand for `enumRefs`, and their end bytes are the
+end bytes of those `TSNode`s. -/
+theorem ft_kids_refs (lang : Lang) (ft : FT) (info : VInfo) (kids : List VTree) (k : Nat) (par : Option Nat) (dep : Nat)
+    (hg : GoodAt ft.toList (.mk info kids) k par dep) (hq : QQ lang (.mk info kids)) :
+    (ft.kidsOf k).map (fun j => refOf (ft.node j).info) = enumRefs lang info.raw info.start ∧
+    (∀ j ∈ ft.kidsOf k, ft.eb j = (refOf (ft.node j).info).endByte ∧ ft.sb j = (refOf (ft.node j).info).startByte) := by
+  have hK := ft_kid_info ft info kids k par dep hg
+  have hlen : (ft.kidsOf k).length = kids.length := by rw [ft_kidsOf ft info kids k par dep hg, kidIdxFrom_length]
+  refine ⟨?_, ?_⟩
+  · rw [← qq_kids_refs lang info kids hq]
+    apply List.ext_getElem?
+    intro j
+    have := congrArg (Option.map refOf) (hK j)
+    simpa [List.getElem?_map, Option.map_map, Function.comp_def] using this
+  · intro j hj
+    obtain ⟨m, hm⟩ := List.mem_iff_getElem?.mp hj
+    have h1 := hK m
+    rw [hm] at h1
+    cases hc : kids[m]? with
+    | none => rw [hc] at h1; simp at h1
+    | some c =>
+      rw [hc] at h1
+      simp only [Option.map_some, Option.some.injEq] at h1
+      obtain ⟨⟨_, _, hstop, _⟩, _, _⟩ := qq_kids lang info kids hq c (List.mem_of_getElem? hc)
+      simp only [FT.eb, FT.sb, h1, refOf, NodeRef.endByte, NodeRef.startByte, hstop, length_add_bytes]
+      exact ⟨trivial, trivial⟩
+
+theorem find_map_refs (g : Nat → NodeRef) (e : Nat → Nat) (goal : Nat) : ∀ (A : List Nat),
+    (∀ j ∈ A, e j = (g j).endByte) →
+    (A.find? (fun j => decide (e j > goal))).map g = (A.map g).find? (fun r => decide (r.endByte > goal))
+  | [], _ => rfl
+  | a :: A, h => by
+    simp only [List.find?_cons, List.map_cons, h a (by simp)]
     split
-    · simp [h.1]
-    · exact find_congr_keys ka kb goal A B h.2
+    · rfl
+    · exact find_map_refs g e goal A (fun j hj => h j (by simp [hj]))
 
 /-- **first_child_for_byte_ft_spec.**  The evaluated cross-check `fcbNode = FT.firstChildForByte` as a
 theorem, in the form the driver evaluates it: for EVERY entry `k` of the preorder array of `flatten`
 (root summarized and parser-shaped), with `self` the `TSNode` built from that entry, and a goal byte
-without dead end (`ndeNode`), the port of `ts_node_first_child_for_byte(self, goal)` returns the node
-(same slot id, byte range, raw subtree, alias) that `FT.firstChildForByte k goal` designates — null
-iff null. -/
+without dead end (`ndeNode`), the port of `ts_node_first_child_for_byte(self, goal)` returns exactly
+the `TSNode` (raw subtree, alias, slot id, position) of the entry `FT.firstChildForByte k goal`
+designates — null iff null. -/
 theorem first_child_for_byte_ft_spec (lang : Lang) (root : Tree) (rootId : Nat) (ps : Option Nat) (fuel k goal : Nat)
     (hs : Summarized lang root) (hsh : shapeOK ps root = true) :
     let ft : FT := flatOf (flatten lang root rootId)
     k < ft.size → (refOf (ft.node k).info).t.size ≤ 2 * fuel + 4 →
     ndeNode lang goal (refOf (ft.node k).info).t (refOf (ft.node k).info).start = true →
-    (firstChildForBytePort lang fuel (refOf (ft.node k).info) goal true).map rkey =
-      (ft.firstChildForByte k goal false).map (fun j => rkey (refOf (ft.node j).info)) := by
+    firstChildForBytePort lang fuel (refOf (ft.node k).info) goal true =
+      (ft.firstChildForByte k goal false).map (fun j => refOf (ft.node j).info) := by
   intro ft hk hf hnde
-  obtain ⟨info, kids, par, dep, hg, ⟨pos, hst, hstop, hkids⟩, hsv, psv, hshv⟩ := ft_all_good lang root rootId ps hs hsh k hk
-  simp only [VTree.info, VTree.kids] at hst hstop hkids hsv hshv
+  obtain ⟨info, kids, par, dep, hg, hq⟩ := ft_all_good lang root rootId ps hs hsh k hk
   have hnode := good_node ft info kids k par dep hg
   have hinfo : (ft.node k).info = info := by rw [hnode]
   rw [hinfo] at hf hnde ⊢
   simp only [refOf] at hf hnde
+  obtain ⟨hrefs, hpos⟩ := ft_kids_refs lang ft info kids k par dep hg hq
+  obtain ⟨_, hsv, psv, hshv⟩ := hq
+  simp only [VTree.info] at hsv hshv
   rw [first_child_for_byte_flat_spec lang fuel (refOf info) goal psv hf hsv hshv hnde]
-  -- the children of the entry are the children of the VTree node, which are `enumRefs`
-  have hrefs : kids.map vkey = (enumRefs lang info.raw info.start).map rkey := by
-    rw [hkids]
-    obtain ⟨d, rk⟩ := hraw : info.raw
-    unfold enumRefs
-    simp only [kids_mk, data_mk] at hst ⊢
-    refine flattenKids_refs lang rk pos d.productionId 0 0 d.addr rk.length [] info.start ?_ (by
-      have := sized_of_summarized lang info.raw hsv; rw [hraw] at this; unfold Sized at this; exact this.2)
-    simp only [Nat.lt_irrefl, if_false]
-    intro c r hk'
-    have hsz := sized_of_summarized lang info.raw hsv
-    rw [hraw] at hsz
-    unfold Sized at hsz
-    have := (hsz.1 (by rw [hk']; simp)).1
-    rw [hk'] at this
-    simp only [kidsPadding] at this
-    rw [hst, length_add_bytes, this]
-  have hK := ft_kid_info ft info kids k par dep hg
-  have hkeys : (ft.kidsOf k).map (fun j => rkey (refOf (ft.node j).info)) = kids.map vkey := by
-    apply List.ext_getElem?
-    intro j
-    have := congrArg (Option.map fun (i : VInfo) => rkey (refOf i)) (hK j)
-    simpa [List.getElem?_map, Option.map_map, Function.comp_def, vkey, rkey, refOf, NodeRef.endByte] using this
-  sorry
+  have hfc : ft.firstChildForByte k goal false = (ft.kidsOf k).find? (fun j => decide (ft.eb j > goal)) := by
+    simp [FT.firstChildForByte]
+  rw [hfc, find_map_refs (fun j => refOf (ft.node j).info) ft.eb goal (ft.kidsOf k) (fun j hj => (hpos j hj).1), hrefs]
+  rfl
+
+/-! ## Part F: `descendant_for_byte_range` on `FT` -/
+
+theorem find_congr_mem {α : Type} (p q : α → Bool) : ∀ (l : List α), (∀ x ∈ l, p x = q x) → l.find? p = l.find? q
+  | [], _ => rfl
+  | a :: l, h => by
+    simp only [List.find?_cons, h a (by simp)]
+    split
+    · rfl
+    · exact find_congr_mem p q l (fun x hx => h x (by simp [hx]))
+
+theorem find_map_refs' (g : Nat → NodeRef) (e : Nat → Nat) (q : Nat → Bool) : ∀ (A : List Nat),
+    (∀ j ∈ A, e j = (g j).endByte) →
+    (A.find? (fun j => q (e j))).map g = (A.map g).find? (fun r => q r.endByte)
+  | [], _ => rfl
+  | a :: A, h => by
+    simp only [List.find?_cons, List.map_cons, h a (by simp)]
+    split
+    · rfl
+    · exact find_map_refs' g e q A (fun j hj => h j (by simp [hj]))
+
+theorem find_some_mem {α : Type} (p : α → Bool) : ∀ (l : List α) (x : α), l.find? p = some x → x ∈ l ∧ p x = true
+  | [], _, h => by simp at h
+  | a :: l, x, h => by
+    simp only [List.find?_cons] at h
+    split at h
+    · simp only [Option.some.injEq] at h; subst h; exact ⟨by simp, by assumption⟩
+    · have := find_some_mem p l x h; exact ⟨by simp [this.1], this.2⟩
+
+/-- The search of `FT.descendantForBytes` written on `TSNode`s: among the visible children
+(`enumRefs`) take the first that ends at or after `re`; stop if it starts after `rs`, otherwise go on
+inside it. -/
+def vgo (lang : Lang) (rs re : Nat) : Nat → NodeRef → NodeRef → NodeRef
+  | 0, _, last => last
+  | f + 1, self, last =>
+    match (enumRefs lang self.t self.start).find? (fun r => decide (r.endByte ≥ re)) with
+    | none => last
+    | some r => if rs < r.startByte then last else vgo lang rs re f r r
+
+theorem ftgo_succ (ft : FT) (s e : Nat) (nm : Bool) (f cur last : Nat) :
+    FT.descendantForBytes.go ft s e nm (f + 1) cur last =
+      (match (ft.kidsOf cur).find? (fun c => decide (ft.eb c ≥ e) && (if ft.sb c == ft.eb c then decide (ft.eb c ≥ s) else decide (ft.eb c > s))) with
+       | none => last
+       | some c => if s < ft.sb c then last else FT.descendantForBytes.go ft s e nm f c (if !nm || ft.named c then c else last)) := by
+  simp only [FT.descendantForBytes.go]
+  cases List.find? (fun c => decide (ft.eb c ≥ e) && if (ft.sb c == ft.eb c) = true then decide (ft.eb c ≥ s) else decide (ft.eb c > s)) (ft.kidsOf cur) <;> rfl
+
+theorem vsizeL_mem : ∀ (kids : List VTree) (c : VTree), c ∈ kids → vsize c ≤ vsizeL kids
+  | [], _, h => by simp at h
+  | k :: r, c, h => by
+    unfold vsizeL
+    simp only [List.mem_cons] at h
+    rcases h with h | h
+    · subst h; omega
+    · have := vsizeL_mem r c h; omega
+
+/-- One step of the `FT` search at a good node, in terms of `enumRefs`. -/
+theorem ftgo_step (lang : Lang) (ft : FT) (rs re : Nat) (hr : rs < re) (info : VInfo) (kids : List VTree) (k : Nat)
+    (par : Option Nat) (dep : Nat) (hg : GoodAt ft.toList (.mk info kids) k par dep) (hq : QQ lang (.mk info kids)) (f last : Nat) :
+    (∃ c vi vk, FT.descendantForBytes.go ft rs re false (f + 1) k last = FT.descendantForBytes.go ft rs re false f c c ∧
+        GoodAt ft.toList (.mk vi vk) c (some k) (dep + 1) ∧ QQ lang (.mk vi vk) ∧ (.mk vi vk) ∈ kids ∧
+        (enumRefs lang info.raw info.start).find? (fun r => decide (r.endByte ≥ re)) = some (refOf vi) ∧ ¬ (rs < (refOf vi).startByte)) ∨
+    (FT.descendantForBytes.go ft rs re false (f + 1) k last = last ∧
+      (match (enumRefs lang info.raw info.start).find? (fun r => decide (r.endByte ≥ re)) with
+       | none => True
+       | some r => rs < r.startByte)) := by
+  obtain ⟨hrefs, hpos⟩ := ft_kids_refs lang ft info kids k par dep hg hq
+  rw [ftgo_succ]
+  have hpred : (ft.kidsOf k).find? (fun c => decide (ft.eb c ≥ re) && (if ft.sb c == ft.eb c then decide (ft.eb c ≥ rs) else decide (ft.eb c > rs))) =
+      (ft.kidsOf k).find? (fun c => decide (ft.eb c ≥ re)) := by
+    apply find_congr_mem
+    intro x _
+    by_cases h1 : ft.eb x ≥ re
+    · have h2 : ft.eb x ≥ rs := by omega
+      have h3 : ft.eb x > rs := by omega
+      simp [h1, h2, h3]
+    · simp [h1]
+  rw [hpred]
+  have hmap := find_map_refs' (fun j => refOf (ft.node j).info) ft.eb (fun x => decide (x ≥ re)) (ft.kidsOf k) (fun j hj => (hpos j hj).1)
+  rw [hrefs] at hmap
+  cases hf : (ft.kidsOf k).find? (fun c => decide (ft.eb c ≥ re)) with
+  | none =>
+    rw [hf] at hmap
+    simp only [Option.map_none] at hmap
+    right
+    rw [← hmap]
+    exact ⟨rfl, trivial⟩
+  | some c =>
+    rw [hf] at hmap
+    simp only [Option.map_some] at hmap
+    obtain ⟨hcm, _⟩ := find_some_mem _ _ _ hf
+    have hsb := (hpos c hcm).2
+    obtain ⟨m, hm⟩ := List.mem_iff_getElem?.mp hcm
+    have hlen : m < kids.length := by
+      have := lt_of_getElem?_some _ _ _ hm
+      rw [ft_kidsOf ft info kids k par dep hg, kidIdxFrom_length] at this
+      exact this
+    obtain ⟨kj, h1, h2, _, _, _⟩ := ft_child_spec ft info kids k par dep m kids[m] hg (List.getElem?_eq_getElem hlen)
+    rw [hm] at h1
+    simp only [Option.some.injEq] at h1
+    subst h1
+    cases hv : kids[m] with
+    | mk vi vk =>
+      rw [hv] at h2
+      have hci : (ft.node c).info = vi := by rw [good_node ft vi vk c (some k) (dep + 1) h2]
+      have hmem : VTree.mk vi vk ∈ kids := by rw [← hv]; exact List.getElem_mem hlen
+      by_cases hlt : rs < ft.sb c
+      · right
+        simp only [hlt, if_true, ← hmap, true_and]
+        rw [hsb] at hlt
+        exact hlt
+      · left
+        refine ⟨c, vi, vk, by simp [hlt], h2, qq_kids lang info kids hq _ hmem, hmem, ?_, ?_⟩
+        · rw [← hmap, hci]
+        · rw [hsb, hci] at hlt; exact hlt
+
+/-- The `FT` search does not depend on the fuel once it covers the subtree. -/
+theorem ftgo_fuel (lang : Lang) (ft : FT) (rs re : Nat) : ∀ (n : Nat) (info : VInfo) (kids : List VTree) (k : Nat)
+    (par : Option Nat) (dep : Nat), GoodAt ft.toList (.mk info kids) k par dep → vsize (.mk info kids) ≤ n →
+    ∀ (f1 f2 last : Nat), vsize (.mk info kids) ≤ f1 → vsize (.mk info kids) ≤ f2 →
+    FT.descendantForBytes.go ft rs re false f1 k last = FT.descendantForBytes.go ft rs re false f2 k last
+  | 0, info, kids, _, _, _, _, hn, _, _, _, _, _ => by have := vsize_pos (.mk info kids); omega
+  | n + 1, info, kids, k, par, dep, hg, hn, f1, f2, last, h1, h2 => by
+    have hpos := vsize_pos (.mk info kids)
+    obtain ⟨f1', rfl⟩ : ∃ x, f1 = x + 1 := ⟨f1 - 1, by omega⟩
+    obtain ⟨f2', rfl⟩ : ∃ x, f2 = x + 1 := ⟨f2 - 1, by omega⟩
+    have hvs : vsize (.mk info kids) = 1 + vsizeL kids := by rw [vsize]
+    rw [ftgo_succ, ftgo_succ]
+    cases hf : (ft.kidsOf k).find? (fun c => decide (ft.eb c ≥ re) && (if ft.sb c == ft.eb c then decide (ft.eb c ≥ rs) else decide (ft.eb c > rs))) with
+    | none => rfl
+    | some cc =>
+      simp only
+      by_cases hlt : rs < ft.sb cc
+      · simp [hlt]
+      · simp only [hlt, if_false, Bool.not_false, Bool.true_or, if_true]
+        obtain ⟨hcm, _⟩ := find_some_mem _ _ _ hf
+        obtain ⟨m, hm⟩ := List.mem_iff_getElem?.mp hcm
+        have hlen : m < kids.length := by
+          have := lt_of_getElem?_some _ _ _ hm
+          rw [ft_kidsOf ft info kids k par dep hg, kidIdxFrom_length] at this
+          exact this
+        obtain ⟨kj, h1', h2', _, _, _⟩ := ft_child_spec ft info kids k par dep m kids[m] hg (List.getElem?_eq_getElem hlen)
+        rw [hm] at h1'
+        simp only [Option.some.injEq] at h1'
+        subst h1'
+        cases hv : kids[m] with
+        | mk wi wk =>
+          rw [hv] at h2'
+          have hmem' : VTree.mk wi wk ∈ kids := by rw [← hv]; exact List.getElem_mem hlen
+          have := vsizeL_mem kids _ hmem'
+          exact ftgo_fuel lang ft rs re n wi wk cc (some k) (dep + 1) h2' (by omega) f1' f2' cc (by omega) (by omega)
+
+/-- **ftgo_eq_vgo.**  With the same fuel, the `FT` search from a good node and the search on `TSNode`s
+from the `TSNode` of that node end on the same `TSNode`. -/
+theorem ftgo_eq_vgo (lang : Lang) (ft : FT) (rs re : Nat) (hr : rs < re) : ∀ (f : Nat) (info : VInfo) (kids : List VTree) (k : Nat)
+    (par : Option Nat) (dep : Nat), GoodAt ft.toList (.mk info kids) k par dep → QQ lang (.mk info kids) → ∀ (last : Nat),
+    refOf (ft.node (FT.descendantForBytes.go ft rs re false f k last)).info =
+      vgo lang rs re f (refOf info) (refOf (ft.node last).info)
+  | 0, _, _, _, _, _, _, _, _ => by rw [FT.descendantForBytes.go, vgo]
+  | f + 1, info, kids, k, par, dep, hg, hq, last => by
+    rw [vgo]
+    rcases ftgo_step lang ft rs re hr info kids k par dep hg hq f last with ⟨c, vi, vk, e1, hgc, hqc, _, hfind, hnl⟩ | ⟨e1, hx⟩
+    · have hf' : (enumRefs lang (refOf info).t (refOf info).start).find? (fun r => decide (r.endByte ≥ re)) = some (refOf vi) := hfind
+      rw [e1, hf']
+      simp only [hnl, if_false]
+      have := ftgo_eq_vgo lang ft rs re hr f vi vk c (some k) (dep + 1) hgc hqc c
+      rw [this, good_node ft vi vk c (some k) (dep + 1) hgc]
+    · rw [e1]
+      cases hfd : (enumRefs lang info.raw info.start).find? (fun r => decide (r.endByte ≥ re)) with
+      | none =>
+        have hf' : (enumRefs lang (refOf info).t (refOf info).start).find? (fun r => decide (r.endByte ≥ re)) = none := hfd
+        rw [hf']
+      | some r =>
+        have hf' : (enumRefs lang (refOf info).t (refOf info).start).find? (fun r => decide (r.endByte ≥ re)) = some r := hfd
+        rw [hfd] at hx
+        simp only at hx
+        rw [hf']
+        simp [hx]
+
+mutual
+  /-- The `TSNode`s handed out for a subtree start at or after its start, belong to strictly smaller
+  raw subtrees, and are `Sized` if the subtree is. -/
+  theorem enumRefs_props (lang : Lang) : ∀ (t : Tree) (start : Length), Sized t → ∀ r ∈ enumRefs lang t start,
+      start.bytes ≤ r.startByte ∧ r.t.size < t.size ∧ Sized r.t
+    | .mk d kids, start, hs, r, hr => by
+      unfold enumRefs at hr
+      unfold Sized at hs
+      have := enumRefsKids_props lang d.productionId d.addr kids.length kids start 0 0 hs.2 r hr
+      simp only [Tree.size]
+      exact ⟨this.1, by omega, this.2.2⟩
+  theorem enumRefsKids_props (lang : Lang) (pid addr nk : Nat) : ∀ (kids : List Tree) (pos : Length) (si k : Nat), SizedL kids →
+      ∀ r ∈ enumRefsKids lang pid addr nk kids pos si k, pos.bytes ≤ r.startByte ∧ r.t.size ≤ Tree.sizeList kids ∧ Sized r.t
+    | [], _, _, _, _, r, hr => by simp [enumRefsKids] at hr
+    | c :: rest, pos, si, k, hs, r, hr => by
+      unfold enumRefsKids at hr
+      unfold SizedL at hs
+      simp only [List.mem_append] at hr
+      simp only [Tree.sizeList]
+      have hcs : pos.bytes ≤ (if k > 0 then length_add pos c.data.padding else pos).bytes := by
+        split <;> simp [length_add_bytes]
+      generalize (if k > 0 then length_add pos c.data.padding else pos) = cstart at hr hcs
+      generalize (if c.data.extra = true then 0 else lang.aliasAt pid si) = al at hr
+      rcases hr with hr | hr
+      · by_cases hrel : ({ t := c, alias := al, id := slotId addr nk k, start := cstart } : NodeRef).relevant lang true = true
+        · simp only [hrel, if_true, List.mem_singleton] at hr
+          subst hr
+          simp only [NodeRef.startByte]
+          exact ⟨hcs, by omega, hs.1⟩
+        · simp only [hrel, if_false, Bool.false_eq_true] at hr
+          have := enumRefs_props lang c _ hs.1 r hr
+          exact ⟨by omega, by omega, this.2.2⟩
+      · have := enumRefsKids_props lang pid addr nk rest _ _ _ hs.2 r hr
+        simp only [length_add_bytes] at this
+        exact ⟨by omega, by omega, this.2.2⟩
+end
+
+theorem raw_child_size (lang : Lang) (n : NodeRef) (rc : RawChild) (h : rc ∈ rawChildren lang n) : rc.node.t.size < n.t.size := by
+  obtain ⟨j, hj⟩ := List.mem_iff_getElem?.mp h
+  simp only [rawChildren] at hj
+  have he := go_elem lang _ _ _ _ _ _ _ j rc hj
+  have := sizeList_mem _ _ (List.mem_of_getElem? he.2.2)
+  have := tree_size_kids n.t
+  omega
+
+/-- `dfrIdeal` does not depend on the fuel once it covers the raw subtree. -/
+theorem dfrIdeal_fuel (lang : Lang) (rs re : Nat) : ∀ (n : Nat) (node : NodeRef), node.t.size ≤ n → ∀ (f1 f2 : Nat) (last : NodeRef),
+    node.t.size ≤ f1 → node.t.size ≤ f2 → dfrIdeal lang rs re f1 node last = dfrIdeal lang rs re f2 node last
+  | 0, node, hn, _, _, _, _, _ => by have := tree_size_pos node.t; omega
+  | n + 1, node, hn, f1, f2, last, h1, h2 => by
+    have hpos := tree_size_pos node.t
+    obtain ⟨f1', rfl⟩ : ∃ x, f1 = x + 1 := ⟨f1 - 1, by omega⟩
+    obtain ⟨f2', rfl⟩ : ∃ x, f2 = x + 1 := ⟨f2 - 1, by omega⟩
+    simp only [dfrIdeal]
+    cases hf : (rawChildren lang node).find? (spans rs re) with
+    | none => rfl
+    | some rc =>
+      have := raw_child_size lang node rc (find_some_mem _ _ _ hf).1
+      exact dfrIdeal_fuel lang rs re n rc.node (by omega) f1' f2' _ (by omega) (by omega)
+
+/-- What `dfrIdeal` does with the raw children still to be scanned / what the visible search does
+with the visible children still to be scanned. -/
+def dfrL (lang : Lang) (rs re f : Nat) (last : NodeRef) (raws : List RawChild) : NodeRef :=
+  match raws.find? (spans rs re) with
+  | none => last
+  | some rc => dfrIdeal lang rs re f rc.node (if rc.node.relevant lang true then rc.node else last)
+def dfrR (lang : Lang) (rs re : Nat) (last : NodeRef) (refs : List NodeRef) : NodeRef :=
+  match refs.find? (fun r => decide (r.endByte ≥ re)) with
+  | none => last
+  | some r => if rs < r.startByte then last else dfrIdeal lang rs re r.t.size r r
+
+theorem dfrL_cons (lang : Lang) (rs re f : Nat) (last : NodeRef) (rc : RawChild) (raws : List RawChild) :
+    dfrL lang rs re f last (rc :: raws) =
+      if spans rs re rc then dfrIdeal lang rs re f rc.node (if rc.node.relevant lang true then rc.node else last)
+      else dfrL lang rs re f last raws := by
+  simp only [dfrL, List.find?_cons]
+  cases spans rs re rc <;> rfl
+
+theorem dfrR_append (lang : Lang) (rs re : Nat) (last : NodeRef) (a b : List NodeRef) :
+    dfrR lang rs re last (a ++ b) =
+      match a.find? (fun r => decide (r.endByte ≥ re)) with
+      | none => dfrR lang rs re last b
+      | some r => if rs < r.startByte then last else dfrIdeal lang rs re r.t.size r r := by
+  simp only [dfrR, find_append_or]
+  cases a.find? (fun r => decide (r.endByte ≥ re)) <;> rfl
+
+theorem dfrL_none (lang : Lang) (rs re f : Nat) (last : NodeRef) (raws : List RawChild)
+    (h : ∀ rc ∈ raws, rs < rc.node.startByte) : dfrL lang rs re f last raws = last := by
+  have : raws.find? (spans rs re) = none := by
+    apply find_none_of_all
+    intro x hx
+    have := h x hx
+    simp only [spans, Bool.and_eq_false_iff, decide_eq_false_iff_not]
+    left; omega
+  simp [dfrL, this]
+
+theorem dfrR_after (lang : Lang) (rs re : Nat) (last : NodeRef) (refs : List NodeRef)
+    (h : ∀ r ∈ refs, rs < r.startByte) : dfrR lang rs re last refs = last := by
+  unfold dfrR
+  cases hf : refs.find? (fun r => decide (r.endByte ≥ re)) with
+  | none => rfl
+  | some r =>
+    have := h r (find_some_mem _ _ _ hf).1
+    simp [this]
+
+/-- One raw child (`node`, ending at `pa`) against the visible nodes it contributes (`cpart`). -/
+theorem dfr_step (lang : Lang) (rs re f : Nat) (hr : rs < re) (last : NodeRef) (rc : RawChild) (raws : List RawChild)
+    (cpart refs : List NodeRef) (hpa : rc.posAfter.bytes = rc.node.endByte)
+    (hX : if rc.node.relevant lang true then
+            cpart = [rc.node] ∧ dfrIdeal lang rs re f rc.node rc.node = dfrIdeal lang rs re rc.node.t.size rc.node rc.node
+          else dfrIdeal lang rs re f rc.node last = dfrR lang rs re last cpart)
+    (hIH : dfrL lang rs re f last raws = dfrR lang rs re last refs)
+    (hF1 : ∀ r ∈ refs, rc.node.endByte ≤ r.startByte)
+    (hF2 : ∀ r ∈ cpart, rc.node.startByte ≤ r.startByte ∧ r.endByte ≤ rc.node.endByte)
+    (hF3 : ∀ x ∈ raws, rc.node.endByte ≤ x.node.startByte) :
+    dfrL lang rs re f last (rc :: raws) = dfrR lang rs re last (cpart ++ refs) := by
+  rw [dfrL_cons, dfrR_append]
+  by_cases hsp : spans rs re rc = true
+  · simp only [hsp, if_true]
+    simp only [spans, Bool.and_eq_true, decide_eq_true_eq] at hsp
+    by_cases hrel : rc.node.relevant lang true = true
+    · simp only [hrel, if_true] at hX ⊢
+      rw [hX.1]
+      have h1 : decide (rc.node.endByte ≥ re) = true := by simp; omega
+      have h2 : ¬ (rs < rc.node.startByte) := by omega
+      simp only [List.find?_cons, h1, h2, if_false]
+      exact hX.2
+    · simp only [hrel, if_false, Bool.false_eq_true] at hX ⊢
+      rw [hX]
+      unfold dfrR
+      cases hf : cpart.find? (fun r => decide (r.endByte ≥ re)) with
+      | some r => rfl
+      | none =>
+        simp only
+        have := dfrR_after lang rs re last refs (fun r hr' => by have := hF1 r hr'; omega)
+        unfold dfrR at this
+        exact this.symm
+  · have hsp' : spans rs re rc = false := by simpa using hsp
+    simp only [hsp', Bool.false_eq_true, if_false]
+    simp only [spans, Bool.and_eq_false_iff, decide_eq_false_iff_not] at hsp'
+    by_cases hend : rc.node.endByte < re
+    · -- nothing of this child reaches the end of the range
+      have hnone : cpart.find? (fun r => decide (r.endByte ≥ re)) = none := by
+        apply find_none_of_all
+        intro r hr'
+        have := (hF2 r hr').2
+        simp; omega
+      rw [hnone]
+      exact hIH
+    · -- the child reaches the end of the range but starts after its start: the search ends here
+      have hst : rs < rc.node.startByte := by
+        rcases hsp' with h | h
+        · omega
+        · omega
+      rw [dfrL_none lang rs re f last raws (fun x hx => by have := hF3 x hx; omega)]
+      cases hf : cpart.find? (fun r => decide (r.endByte ≥ re)) with
+      | some r =>
+        have := (hF2 r (find_some_mem _ _ _ hf).1).1
+        have hlt : rs < r.startByte := by omega
+        simp [hlt]
+      | none =>
+        simp only
+        exact (dfrR_after lang rs re last refs (fun r hr' => by have := hF1 r hr'; omega)).symm
+
+mutual
+  /-- **dfrH.**  On a `Sized` raw subtree and for a non-empty range, `dfrIdeal` (first raw child that
+  spans the range, through any number of hidden levels) does what the visible search does: take the
+  first VISIBLE child ending at or after `re`; if it starts after `rs` stop, else continue in it. -/
+  theorem dfrH (lang : Lang) (rs re : Nat) (hr : rs < re) : ∀ (t : Tree) (al id : Nat) (start : Length) (last : NodeRef) (f : Nat),
+      t.size ≤ f → Sized t →
+      dfrIdeal lang rs re f ⟨t, al, id, start⟩ last = dfrR lang rs re last (enumRefs lang t start)
+    | .mk d kids, al, id, start, last, f, hf, hs => by
+      obtain ⟨f', rfl⟩ : ∃ x, f = x + 1 := ⟨f - 1, by simp only [Tree.size] at hf; omega⟩
+      unfold Sized at hs
+      simp only [Tree.size] at hf
+      have := dfrHL lang rs re hr kids ⟨.mk d kids, al, id, start⟩ d.productionId kids.length start 0 0 last f' (by omega) hs.2
+      unfold enumRefs
+      simp only [data_mk] at this
+      rw [← this]
+      rfl
+  theorem dfrHL (lang : Lang) (rs re : Nat) (hr : rs < re) : ∀ (kids : List Tree) (n : NodeRef) (pid nk : Nat) (pos : Length) (si k : Nat)
+      (last : NodeRef) (f : Nat), Tree.sizeList kids ≤ f → SizedL kids →
+      dfrL lang rs re f last (rawChildren.go lang n pid nk kids pos si k) =
+        dfrR lang rs re last (enumRefsKids lang pid n.t.data.addr nk kids pos si k)
+    | [], _, _, _, _, _, _, _, _, _, _ => by simp [rawChildren.go, enumRefsKids, dfrL, dfrR]
+    | c :: rest, n, pid, nk, pos, si, k, last, f, hf, hs => by
+      unfold SizedL at hs
+      simp only [Tree.sizeList] at hf
+      rw [go_getElem_zero]
+      unfold enumRefsKids
+      simp only
+      have hF1 := enumRefsKids_props lang pid n.t.data.addr nk rest
+        (length_add (if k > 0 then length_add pos c.data.padding else pos) c.data.size) (if c.data.extra then si else si + 1) (k + 1) hs.2
+      have hF3 := startsFrom_ge _ _ (go_startsFrom lang n pid nk rest
+        (length_add (if k > 0 then length_add pos c.data.padding else pos) c.data.size) (if c.data.extra then si else si + 1) (k + 1))
+      have ih := dfrHL lang rs re hr rest n pid nk (length_add (if k > 0 then length_add pos c.data.padding else pos) c.data.size)
+        (if c.data.extra then si else si + 1) (k + 1) last f (by omega) hs.2
+      generalize (if k > 0 then length_add pos c.data.padding else pos) = cstart at hF1 hF3 ih ⊢
+      generalize (if c.data.extra = true then 0 else lang.aliasAt pid si) = al
+      generalize (if c.data.extra = true then si else si + 1) = si' at hF1 hF3 ih ⊢
+      refine dfr_step lang rs re f hr last _ _ _ _ (by simp [NodeRef.endByte, length_add_bytes]) ?_ ih ?_ ?_ ?_
+      · simp only
+        by_cases hrel : ({ t := c, alias := al, id := slotId n.t.data.addr nk k, start := cstart } : NodeRef).relevant lang true = true
+        · simp only [hrel, if_true, true_and]
+          exact dfrIdeal_fuel lang rs re c.size _ (Nat.le_refl _) f c.size _ (by simp; omega) (Nat.le_refl _)
+        · simp only [hrel, if_false, Bool.false_eq_true]
+          exact dfrH lang rs re hr c al _ cstart last f (by omega) hs.1
+      · intro r hr'
+        have := (hF1 r hr').1
+        simp only [NodeRef.endByte, length_add_bytes] at this ⊢
+        exact this
+      · intro r hr'
+        by_cases hrel : ({ t := c, alias := al, id := slotId n.t.data.addr nk k, start := cstart } : NodeRef).relevant lang true = true
+        · simp only [hrel, if_true, List.mem_singleton] at hr'
+          subst hr'
+          exact ⟨Nat.le_refl _, Nat.le_refl _⟩
+        · simp only [hrel, if_false, Bool.false_eq_true] at hr'
+          have h1 := (enumRefs_props lang c cstart hs.1 r hr').1
+          have h2 := enumRefs_within lang c cstart hs.1 r hr'
+          simp only [NodeRef.startByte, NodeRef.endByte] at h1 h2 ⊢
+          exact ⟨h1, h2⟩
+      · intro x hx
+        have := hF3 x hx
+        simp only [NodeRef.endByte, length_add_bytes] at this ⊢
+        exact this
+end
+
+/-- The visible search on `TSNode`s is `dfrIdeal` (fuel covering the raw subtree, `Sized` tree,
+non-empty range). -/
+theorem vgo_eq_dfr (lang : Lang) (rs re : Nat) (hr : rs < re) : ∀ (m : Nat) (self last : NodeRef) (F : Nat),
+    self.t.size ≤ m → self.t.size ≤ F → Sized self.t → vgo lang rs re F self last = dfrIdeal lang rs re F self last
+  | 0, self, _, _, hm, _, _ => by have := tree_size_pos self.t; omega
+  | m + 1, self, last, F, hm, hF, hs => by
+    have hpos := tree_size_pos self.t
+    obtain ⟨F', rfl⟩ : ∃ x, F = x + 1 := ⟨F - 1, by omega⟩
+    obtain ⟨t, al, id, start⟩ := self
+    rw [dfrH lang rs re hr t al id start last (F' + 1) hF hs, vgo]
+    unfold dfrR
+    simp only
+    cases hf : (enumRefs lang t start).find? (fun r => decide (r.endByte ≥ re)) with
+    | none => rfl
+    | some r =>
+      simp only
+      by_cases hlt : rs < r.startByte
+      · simp [hlt]
+      · simp only [hlt, if_false]
+        have hp := enumRefs_props lang t start hs r (find_some_mem _ _ _ hf).1
+        simp only at hm hF
+        rw [vgo_eq_dfr lang rs re hr m r r F' (by omega) (by omega) hp.2.2]
+        exact dfrIdeal_fuel lang rs re r.t.size r (Nat.le_refl _) F' r.t.size r (by omega) (Nat.le_refl _)
+
+/-- **descendant_for_byte_range_ft_spec.**  The evaluated cross-check `dfrIdeal = FT.descendantForBytes`
+as a theorem, in the form the driver evaluates it: root summarized and parser-shaped, `ft` the preorder
+array of `flatten`, `rootRef` the `TSNode` of entry 0, a NON-EMPTY byte range and fuel covering the raw
+tree: the port of `ts_node_descendant_for_byte_range(rootRef, rs, re)` returns exactly the `TSNode` of
+the entry `FT.descendantForBytes 0 rs re` designates. -/
+theorem descendant_for_byte_range_ft_spec (lang : Lang) (root : Tree) (rootId : Nat) (ps : Option Nat) (fuel rs re : Nat)
+    (hs : Summarized lang root) (hsh : shapeOK ps root = true) (hr : rs < re) :
+    let ft : FT := flatOf (flatten lang root rootId)
+    root.size ≤ fuel →
+    descendantForByteRangePort lang fuel (refOf (ft.node 0).info) rs re true =
+      (ft.descendantForBytes 0 rs re false).map (fun j => refOf (ft.node j).info) := by
+  intro ft hfuel
+  have hg0 := flatOf_good (flatten lang root rootId)
+  have hq0 := flatten_qq lang root rootId ps hs hsh
+  have hraw := (flatten_hered lang root rootId).2
+  have hsize := flatOf_size (flatten lang root rootId)
+  cases hv : flatten lang root rootId with
+  | mk info kids =>
+    rw [hv] at hg0 hq0 hraw hsize
+    have hfte : ft = flatOf (VTree.mk info kids) := by simp only [ft, hv]
+    rw [← hfte] at hg0 hsize
+    simp only [VTree.info] at hraw
+    have hnode : (ft.node 0).info = info := by rw [good_node ft info kids 0 none 0 hg0]
+    rw [hnode, descendant_for_byte_range_spec_partial lang fuel (refOf info) rs re hr]
+    have hng : ¬ (rs > re) := by omega
+    simp only [FT.descendantForBytes, hng, if_false, Option.map_some, Option.some.injEq]
+    have hsz : Sized root := sized_of_summarized lang root hs
+    have hft : Array.size ft = vsize (.mk info kids) := hsize
+    rw [ftgo_fuel lang ft rs re (vsize (.mk info kids)) info kids 0 none 0 hg0 (Nat.le_refl _) (Array.size ft) (Array.size ft + root.size) 0
+      (by omega) (by omega)]
+    rw [ftgo_eq_vgo lang ft rs re hr _ info kids 0 none 0 hg0 hq0 0, hnode]
+    have hrt : (refOf info).t = root := hraw
+    rw [vgo_eq_dfr lang rs re hr root.size (refOf info) (refOf info) _ (by rw [hrt]; exact Nat.le_refl _) (by rw [hrt]; omega) (by rw [hrt]; exact hsz)]
+    exact dfrIdeal_fuel lang rs re root.size (refOf info) (by rw [hrt]; exact Nat.le_refl _) _ _ _ (by rw [hrt]; omega) (by rw [hrt]; omega)
 
 /-! ## Non-vacuity (demo tree of `NodeProps.lean`: root → [a, hidden h → [v → [b], c], d]) -/
 
@@ -744,5 +1230,16 @@ example := nav_ft_spec C02.demoLang 8 pvRoot pvC [1, 1] none (by simp) (by simp)
 /-- … and the array is what one expects: preorder ids, parents, children lists. -/
 example : (pre (flatten C02.demoLang pvRoot.t pvRoot.id) none 0 0).map (fun f => (f.info.id, f.parent, f.kids.toList)) =
     [(1, none, [1, 2, 4, 5]), (976, some 0, []), (1984, some 0, [3]), (2992, some 2, []), (1992, some 0, []), (992, some 0, [])] := by decide
+
+theorem ft_node_zero (t : VTree) : (FT.node (flatOf t) 0).info = t.info := by
+  obtain ⟨info, kids⟩ := t
+  rw [good_node (flatOf (.mk info kids)) info kids 0 none 0 (flatOf_good _)]
+  rfl
+
+/-- The hypotheses of the two `FT` theorems about byte searches hold on the demo tree (entry 0 = root,
+goal byte 1 / range [1, 2]). -/
+example := first_child_for_byte_ft_spec C02.demoLang pvRoot.t pvRoot.id none 8 0 1 pvRoot_summarized pvRoot_shape
+  (by rw [flatOf_size]; decide) (by rw [ft_node_zero]; decide) (by rw [ft_node_zero]; decide)
+example := descendant_for_byte_range_ft_spec C02.demoLang pvRoot.t pvRoot.id none 8 1 2 pvRoot_summarized pvRoot_shape (by decide) (by decide)
 
 end TsVerif.C06
